@@ -3,6 +3,7 @@ package props
 import (
 	"bytes"
 	"fmt"
+	"os"
 	"runtime/debug"
 	"strings"
 
@@ -354,5 +355,32 @@ func init() {
 				"probe:chain-2000-survived", "probe:not-chain-survived", "probe:after-chain"}
 		},
 		ChunkTimeout: 0,
+		Post: func(a *mon.Agg) {
+			// results of the native fuzzer stage run by ./check before the
+			// seeded workload (thorough tier)
+			if n := os.Getenv("VERIF_FUZZ_EXECS_DONE"); n != "" {
+				a.Extra["native_fuzzer"] = map[string]any{"executions": n, "status": os.Getenv("VERIF_FUZZ_STATUS"), "note": "go test -fuzz FuzzTotality: coverage-guided, not seedable; same totality oracle"}
+				if os.Getenv("VERIF_FUZZ_STATUS") == "failed" {
+					a.AddViolation(mon.Violation{Prop: "C10", Sig: "C10 native-fuzzer " + os.Getenv("VERIF_FUZZ_SIG"), What: "the native fuzzer found an input that violates the totality oracle", Tier: a.Tier, Seed: a.Seed,
+						Detail: map[string]any{"log_tail": os.Getenv("VERIF_FUZZ_TAIL")}})
+				}
+			}
+		},
 	})
+}
+
+// C10SeedCorpus is the seed corpus handed to the native fuzzer.
+func C10SeedCorpus() []string {
+	return append(append([]string{}, c10Corpus...), c10Hostile...)
+}
+
+// C10FuzzOracle applies the C10 totality oracle to one input and returns the
+// first violation ("" if none). Used by internal/fuzzc10.
+func C10FuzzOracle(s string) string {
+	c := mon.NewCtx("C10", "thorough", 1, nil)
+	c10Check(c, s, "native-fuzzer", 1<<15)
+	if v := c.FirstViolation(); v != nil {
+		return v.Sig + ": " + v.What
+	}
+	return ""
 }
